@@ -236,14 +236,11 @@ func (rs *ReferenceScope) CreateChild() *ReferenceScope {
 	}
 
 	return &ReferenceScope{
-		Tx:               rs.Tx,
-		Blocks:           blocks,
-		nodes:            nil,
-		cachedFilePath:   rs.cachedFilePath,
-		now:              rs.now,
-		RecursiveTable:   rs.RecursiveTable,
-		RecursiveTmpView: rs.RecursiveTmpView,
-		RecursiveCount:   rs.RecursiveCount,
+		Tx:             rs.Tx,
+		Blocks:         blocks,
+		nodes:          nil,
+		cachedFilePath: rs.cachedFilePath,
+		now:            rs.now,
 	}
 }
 
